@@ -1033,8 +1033,13 @@ impl ReCompiler {
         if matches!(op1, Operation::EndProgram(_)) {
             return !reluctant;
         }
-        if matches!(op1, Operation::Bol(_)) || matches!(op1, Operation::Eol(_)) {
-            return true;
+        if matches!(op1, Operation::Bol(_)) {
+            // "^" also holds at the start position, before any repetition
+            return false;
+        }
+        if matches!(op1, Operation::Eol(_)) {
+            // "$" can hold before a newline that the repeated term would consume
+            return !op0.get_initial_character_class(case_blind).contains('\n');
         }
         if let Some(repeat_operation) = op1.repeat_operation() {
             if repeat_operation.min() == 0 {
